@@ -1,9 +1,151 @@
-"""C12 -- decided on bounded symbolic runs of the real main loop (engine: props/runs.py, front end: props/runcheck.py)."""
+"""C12 -- composite objects stay consistent with their point masses.
+
+runs      bounded symbolic runs of the real main loop (engine props/runs.py): stored velocity == weighted sum, stored
+          position advanced to the event time == weighted barycentre of nearest images, at every commit.
+creators  the real DipoleRandomNodeCreator / WaterRandomNodeCreator .fill_root_node on a symbolic centre and symbolic
+          unit vectors (random_vector_on_unit_sphere stubbed: its rejection loop is unbounded): the root position is
+          the weighted mean of the children's nearest images (the runs start from an arbitrary molecule satisfying this
+          invariant; here the real creators are shown to establish it).
+"""
 import os
 import sys
 
 sys.path.insert(0, os.path.dirname(os.path.abspath(__file__)))
+sys.path.insert(0, os.path.dirname(os.path.dirname(os.path.abspath(__file__))))
 import runcheck  # noqa: E402
 
+
+from vlib import symx, solve, jf, harness, stubs  # noqa: E402
+import z3  # noqa: E402
+import jellyfysh.base.vectors as vectors_mod  # noqa: E402
+from jellyfysh.base.node import Node  # noqa: E402
+import jellyfysh.input_output_handler.input_handler.random_node_creator.dipole_random_node_creator as dmod  # noqa: E402
+import jellyfysh.input_output_handler.input_handler.random_node_creator.water_random_node_creator as wmod  # noqa: E402
+L = symx.SymReal.lift
+BOX = 10.0
+
+
+def creators(chk):
+    chk.encoded(dmod.DipoleRandomNodeCreator.fill_root_node, dmod.DipoleRandomNodeCreator._create_random_dipole,
+                wmod.WaterRandomNodeCreator.fill_root_node, wmod.WaterRandomNodeCreator._create_random_water_molecule,
+                vectors_mod.normalize, vectors_mod.dot)
+    chk.bound(creators="DipoleRandomNodeCreator (separation in [min/2, max/2] symbolic) in a box of length 10, 3 "
+                       "dimensions; centre symbolic in [0, L); orientation a symbolic unit vector")
+    chk.stub("vectors.random_vector_on_unit_sphere -> fresh vector with squared norm 1")
+    chk.outside_claim("WaterRandomNodeCreator.fill_root_node: its chain of normalisations (three square roots, a "
+                      "quotient by the norm of the difference of two random unit vectors) leads to QF_NRA queries that "
+                      "do not terminate within minutes; exactly parallel random orientation vectors make the real code "
+                      "divide by zero (probability zero)")
+    chk.register_replay("creator", replay_creator)
+    chk.explore_parallel(["dipole"], explore_creator)
+
+
+def replay_creator(model, q):
+    """Native replay: the real creator with the model's centre, direction and separation (floats)."""
+    import fractions
+    import jellyfysh.setting as setting
+    vals = {k: float(fractions.Fraction(v)) for k, v in model.items() if isinstance(v, (int, fractions.Fraction))}
+    uni = [vals[k] for k in sorted((k for k in vals if k.startswith("uniform!")), key=lambda s_: int(s_.split("!")[1]))]
+    nvec = [vals[k] for k in sorted((k for k in vals if k.startswith("n!")), key=lambda s_: int(s_.split("!")[1]))]
+    if len(uni) < 4 or len(nvec) < 3:
+        return {"reproduced": False, "what": "incomplete model for the creator replay"}
+    norm = sum(c * c for c in nvec) ** 0.5 or 1.0
+    nvec = [c / norm for c in nvec]
+    jf.init_hypercubic(3, BOX, roots=2, per_root=2)
+    import jellyfysh.setting.hypercubic_setting as hs
+    rnd = stubs.ReplayRandom(uni)
+    undos = [symx.patch_module(hs, random=rnd),
+             symx.patch_module(dmod, random=rnd, random_vector_on_unit_sphere=lambda dim: list(nvec))]
+    try:
+        node = Node()
+        dmod.DipoleRandomNodeCreator(min_initial_dipole_separation=0.0, max_initial_dipole_separation=1.0).fill_root_node(node)
+        root = list(node.value.position)
+        problems = []
+        for d in range(3):
+            acc = 0.0
+            for ch in node.children:
+                x = ch.value.position[d]
+                x += BOX * round((root[d] - x) / BOX)
+                acc += x / len(node.children)
+            if abs(acc - root[d]) > 1e-9:
+                problems.append("component %d: barycentre %r, composite position %r" % (d, acc, root[d]))
+        if problems:
+            return {"reproduced": True, "what": "DipoleRandomNodeCreator centre %s direction %s: %s"
+                                                % (uni[:3], nvec, "; ".join(problems)),
+                    "data": {"kind": "creator", "model": {k: str(v) for k, v in model.items()}}}
+        return {"reproduced": False, "what": "creator fine natively"}
+    finally:
+        for u in undos:
+            u()
+        jf.reset_settings()
+
+
+def explore_creator(kind):
+    if True:
+        queries, npaths = [], 0
+
+        def run(ex):
+            jf.init_hypercubic(3, BOX, roots=2, per_root=(2 if kind == "dipole" else 3))
+            import runs
+            rnd = runs.HalfOpenRandom(ex)
+
+            def unit_vector(dimension):
+                v = [ex.fresh_real("n") for _ in range(dimension)]
+                ex.axiom(sum((c.t * c.t for c in v), z3.RealVal(0)) == 1)
+                return v
+            import jellyfysh.setting.hypercubic_setting as hs
+            undos = [symx.patch_module(hs, random=rnd)]
+            _, undo = jf.patch_math_random([vectors_mod, wmod], ex, rnd=rnd)
+            undos.append(undo)
+            try:
+                if kind == "dipole":
+                    undos.append(symx.patch_module(dmod, random=rnd, random_vector_on_unit_sphere=unit_vector))
+                    creator = dmod.DipoleRandomNodeCreator(min_initial_dipole_separation=0.0,
+                                                           max_initial_dipole_separation=1.0)
+                else:
+                    undos.append(symx.patch_module(vectors_mod, random_vector_on_unit_sphere=unit_vector))
+                    creator = wmod.WaterRandomNodeCreator(bond_length=1.012, bond_angle=1.9764)
+                node = Node()
+                creator.fill_root_node(node)
+            finally:
+                for u in undos:
+                    u()
+                jf.reset_settings()
+            root = [L(c) for c in node.value.position]
+            kids = [[L(c) for c in ch.value.position] for ch in node.children]
+            n = len(kids)
+            Ls = symx.realval(BOX)
+            conds = []
+            for d in range(3):
+                acc = z3.RealVal(0)
+                for kpos in kids:
+                    k = z3.Int(ex.fresh_name("img"))
+                    ex.axiom(z3.And(kpos[d] + z3.ToReal(k) * Ls - root[d] > -Ls / 2,
+                                    kpos[d] + z3.ToReal(k) * Ls - root[d] <= Ls / 2))
+                    acc = acc + (kpos[d] + z3.ToReal(k) * Ls) / n
+                conds.append(acc == root[d])
+            ex.oblige("created-composite-position-is-the-barycentre-of-its-point-masses", z3.And(*conds))
+            ex.oblige("children-and-root-in-the-box",
+                      z3.And(*[z3.And(c >= 0, c < Ls) for p in kids + [root] for c in p]))
+            return None
+        ex = symx.Explorer(feas_timeout_ms=20000, witness=True)
+        for path in ex.paths(run):
+            npaths += 1
+            tag = "creator/%s/p%d/" % (kind, npaths)
+            if path.exception is not None:
+                queries.append(solve.Query(tag + "no-exception(%s: %s)" % (type(path.exception).__name__,
+                                                                          str(path.exception)[:60]),
+                                           solve.to_smt2(path.hyp()), expect="unsat", timeout_s=120, solver="portfolio",
+                                           info={"exception": repr(path.exception)}, group="creator/no-exception"))
+                continue
+            queries += harness.path_queries(path, prefix=tag, group_prefix="creator/", timeout_s=240,
+                                            solver="portfolio", twin_group="creator/" + kind,
+                                            extra_info={"replay": "creator", "kind": kind})
+        for q in queries:
+            if q.expect == "sat":
+                q.info["twin_lenient_unknown"] = True
+        return {"paths": npaths, "queries": queries, "part": "creator/" + kind}
+
+
 if __name__ == "__main__":
-    runcheck.main("C12")
+    runcheck.main("C12", extra_parts=creators)
